@@ -85,13 +85,15 @@ func Spawn() int {
 	return nextID
 }
 
-const grace = 20 * time.Millisecond
-
 var (
 	inflight  int
+	counted   = map[int]bool{} // logical goroutine -> its admitted operation counts as in flight
 	lastG     = -1
 	exhausted time.Time
 )
+
+// divergeAfter: how long a goroutine may wait at a site the trace does not expect.
+const divergeAfter = 20 * time.Second
 
 // At blocks until the recorded order says it is this goroutine's turn at this site.
 func At(site string) {
@@ -107,13 +109,19 @@ func At(site string) {
 	start := time.Now()
 	for enabled && pos < len(trace) {
 		e := trace[pos]
-		free := inflight == 0 || time.Since(busyAt) > grace // a blocked rendezvous releases the baton after a grace period
+		// An operation the engine recorded as blocking ("sendb": a send that waits for its
+		// receiver) completes only after later events, so it does not hold the baton; every
+		// other admitted operation completes promptly and the next one waits for it.
+		free := inflight == 0
 		if e.g == g && e.site == site && free {
 			if Verbose {
 				fmt.Fprintf(os.Stderr, "gate: %d/%d G%d %s %s\n", pos, len(trace), g, site, e.kind)
 			}
 			pos++
-			inflight++
+			if e.kind != "sendb" {
+				inflight++
+				counted[g] = true
+			}
 			busyAt = time.Now()
 			lastG = g
 			if pos == len(trace) {
@@ -122,7 +130,7 @@ func At(site string) {
 			cond.Broadcast()
 			return
 		}
-		if time.Since(start) > 5*time.Second {
+		if time.Since(start) > divergeAfter {
 			fmt.Fprintf(os.Stderr, "gate: DIVERGED: G%d waits at %s but event %d is G%d %s %s; free-running from here\n", g, site, pos, e.g, e.site, e.kind)
 			enabled = false
 			cond.Broadcast()
@@ -152,14 +160,17 @@ func After() {
 	if !ok {
 		return
 	}
-	if inflight > 0 {
-		inflight--
+	if counted[g] {
+		counted[g] = false
+		if inflight > 0 {
+			inflight--
+		}
 	}
 	cond.Broadcast()
 	start := time.Now()
 	for enabled && pos < len(trace) && trace[pos].g != g {
-		if time.Since(start) > 5*time.Second {
-			fmt.Fprintf(os.Stderr, "gate: DIVERGED: G%d parked after an operation for 5s, event %d is G%d %s\n", g, pos, trace[pos].g, trace[pos].site)
+		if time.Since(start) > divergeAfter {
+			fmt.Fprintf(os.Stderr, "gate: DIVERGED: G%d parked after an operation, event %d is G%d %s\n", g, pos, trace[pos].g, trace[pos].site)
 			enabled = false
 			cond.Broadcast()
 			return
